@@ -107,6 +107,11 @@ PROP = dict(
          "up to 3x3x4 (4x4x5) with random/striped/checkerboard partitions; (load) 8 weight families (uniform, random, zeros, one "
          "dominant, negative, large, more parts than elements, all zero); a separate documented stream feeds rows in arbitrary order to "
          "the specialisation through CsMatView::new_unchecked (the constructor coupe's C API uses) and is compared with the model only; "
+         "LARGE cases, one per shard (every 60th case quick, every 50th thorough): paths, rings, banded random sparse matrices "
+         "(symmetric and not), 2D lattices as matrices, coupe::Grid in 2D/3D and weight arrays for the load functions with n in "
+         "{1023..1026, 2047..2050, 4095..4100, 5000, random 1500..5200}, partitions that cut edges at and around rows 1022..1025, "
+         "2047..2049, 4095, 4096 (alternating, single cut at a boundary, boundary rows only, blocks of 512/1000/1024/1025, random "
+         "windows around the boundaries); "
          "1..6 parts, 6 partition shapes, pools of 1..16 threads "
          "(case index mod 16 + 1); a rare separate stream outside the contract (short/long partition or weight arrays, part id out "
          "of range, zero parts); distinct = distinct (kind, graph or sizes, partition, weights); non-trivial = in contract, at "
@@ -115,7 +120,8 @@ PROP = dict(
                  5: "loads/imbalance", 6: "loads/imbalance, outside contract",
                  7: "adjacency list with unsorted/duplicate rows (generic trait only)",
                  8: "unsorted rows via CsMatView::new_unchecked (outside the sparse-matrix contract): specialisation still equals the definition",
-                 9: "unsorted rows via CsMatView::new_unchecked (outside the sparse-matrix contract): specialisation differs from the definition, as the model predicts"},
+                 9: "unsorted rows via CsMatView::new_unchecked (outside the sparse-matrix contract): specialisation differs from the definition, as the model predicts",
+                 10: "large sparse matrix (1023..5200 vertices)", 11: "large Grid (1023..5000 cells)"},
     trusted_base=[
         "axioms: none (every theorem of Properties/C16.v is closed under the global context)",
         "modelled, not verified: i64 overflow of sums and of Grid index arithmetic (contract: no overflow); the f64 instantiations are run "
